@@ -15,7 +15,7 @@ open GS.Generated.Budget
 
 /-- a traversal with go-graphsync's root check and go-ipld-prime's link check -/
 def traverse (avail : Cid → Bool) (budget : Option Int) (t : LT) : Result :=
-  run rootCheck linkCheck avail budget t
+  run rootCheck linkCheck rootCheckBeforeLoad sharedCounter avail budget t
 
 inductive Side where
   | requestor | responder
